@@ -48,6 +48,40 @@ func (e *engine) newKey() (ed25519.PublicKey, crypto.PubKey) {
 
 // ---- C10 ----
 
+// keyDataField reads a protobuf message field by field (varint and length-delimited fields only,
+// the two wire types of the key message) and returns the contents of the last field 2 (key data).
+func keyDataField(msg []byte) ([]byte, bool) {
+	var data []byte
+	found := false
+	for len(msg) > 0 {
+		tag, n := binary.Uvarint(msg)
+		if n <= 0 {
+			return nil, false
+		}
+		msg = msg[n:]
+		switch tag & 7 {
+		case 0:
+			_, k := binary.Uvarint(msg)
+			if k <= 0 {
+				return nil, false
+			}
+			msg = msg[k:]
+		case 2:
+			l, k := binary.Uvarint(msg)
+			if k <= 0 || uint64(len(msg[k:])) < l {
+				return nil, false
+			}
+			if tag>>3 == 2 {
+				data, found = msg[k:k+int(l)], true
+			}
+			msg = msg[k+int(l):]
+		default:
+			return nil, false
+		}
+	}
+	return data, found
+}
+
 func (e *engine) idBytesCase(b []byte, gen string, wantReject bool) {
 	op := "codec.idFromBytes b=" + lib.Hex(b)
 	model := e.m.Query(op)
@@ -110,6 +144,13 @@ func (e *engine) idBytesCase(b []byte, gen string, wantReject bool) {
 			mon2 = "ExtractPublicKey returns a key from a multihash whose hash code is not IDENTITY (" + gen + ") " + lib.Hex(b)
 		} else if !bytes.Contains(b[n:], lib.Unhex(impl2[3:])) {
 			mon2 = "ExtractPublicKey returns a key that is not in the ID (" + gen + ")"
+		} else if dl, m := binary.Uvarint(b[n:]); m > 0 && uint64(len(b[n+m:])) == dl {
+			// "decodes to exactly that key", stated on the bytes: the key that comes out is the
+			// WHOLE key-data field of the embedded key message (read here field by field), not a
+			// prefix or a padded copy of it
+			if data, ok := keyDataField(b[n+m:]); ok && !bytes.Equal(data, lib.Unhex(impl2[3:])) {
+				mon2 = fmt.Sprintf("ExtractPublicKey returns a %d-byte key from an ID whose key message carries %d bytes of key data (%s): the ID does not decode to exactly the key it carries", len(impl2[3:])/2, len(data), gen)
+			}
 		}
 	}
 	br2 := "extract." + strings.SplitN(model2, " ", 2)[0]
